@@ -10,6 +10,8 @@
                          (leading indices …, row slice, column slice); secN = number of leading indices (99 = raise),
                          secL0/secL1 their values, the others the slice bounds (`:` = 0 … NAXIS1)
   cmpRlo, cmpRhi, cmpClo, cmpChi   the subscript `hdulist[0].data[ … ]` of the compressed branch
+  extHeader, extData, extCmp       which HDU the header / the pixels / the expanded image are taken from
+  scaled                           the BSCALE handling: `if 'BSCALE' in header: data *= header['BSCALE']`
 
 The slices are written as small Python functions (inside the translator's int-mode whitelist) into a scratch file,
 from the AST of the tree under test ($AEGEAN_REPO, default /repo); anything the slicer does not recognise is
@@ -282,13 +284,83 @@ def _compressed_slice(fn):
     return head + f"    rlo = {rows[0]}\n    rhi = {rows[1]}\n    clo = {cols[0]}\n    chi = {cols[1]}\n    return rlo\n"
 
 
+def _ext_slice(fn):
+    """which HDU the header is read from (`fits.getheader(filename, ext=X)` bound to `header`), which HDU the pixels are
+    read from (every `a[Y]` on the handle of `with fits.open(...) as a` must use the same Y), and which HDU of the
+    expanded file the compressed branch uses (`hdulist[Z]`, hdulist bound to `expand(...)`)"""
+    head = "def ext(hdu_index):\n"
+    bad = head + "    eh = untranslatable('HDU selection not recognised')\n    ed = eh\n    ec = eh\n    return eh\n"
+    eh = None
+    for n in ast.walk(fn):
+        if isinstance(n, ast.Assign) and len(n.targets) == 1 and ast.unparse(n.targets[0]) == 'header' \
+                and isinstance(n.value, ast.Call) and ast.unparse(n.value.func).endswith('getheader'):
+            c = n.value
+            x = [k.value for k in c.keywords if k.arg == 'ext']
+            if x:
+                cand = ast.unparse(x[0])
+            elif len(c.args) >= 2:
+                cand = ast.unparse(c.args[1])
+            else:
+                cand = '0'
+            if eh is not None and eh != cand:
+                return bad
+            eh = cand
+    handles, eds = set(), set()
+    for n in ast.walk(fn):
+        if isinstance(n, ast.With):
+            for it in n.items:
+                if isinstance(it.context_expr, ast.Call) and ast.unparse(it.context_expr.func).endswith('open') \
+                        and isinstance(it.optional_vars, ast.Name):
+                    handles.add(it.optional_vars.id)
+    for n in ast.walk(fn):
+        if isinstance(n, ast.Subscript) and isinstance(n.value, ast.Name) and n.value.id in handles:
+            eds.add(ast.unparse(n.slice))
+    exp_names, ecs = set(), set()
+    for n in ast.walk(fn):
+        if isinstance(n, ast.Assign) and len(n.targets) == 1 and isinstance(n.targets[0], ast.Name) \
+                and isinstance(n.value, ast.Call) and ast.unparse(n.value.func).endswith('expand'):
+            exp_names.add(n.targets[0].id)
+    for n in ast.walk(fn):
+        if isinstance(n, ast.Subscript) and isinstance(n.value, ast.Name) and n.value.id in exp_names:
+            ecs.add(ast.unparse(n.slice))
+    if eh is None or len(eds) != 1 or len(ecs) != 1:
+        return bad
+    return head + f"    eh = {eh}\n    ed = {eds.pop()}\n    ec = {ecs.pop()}\n    return eh\n"
+
+
+def _bscale_slice(fn):
+    """`if 'BSCALE' in header: data *= header['BSCALE']` (or data = data * header['BSCALE']), at the top level of the
+    function: as  out = data; if has == 1: out = <data op bs>"""
+    head = "def bscale(has, data, bs):\n"
+    bad = head + "    out = untranslatable('BSCALE handling not recognised')\n    return out\n"
+    sites = [s for s in ast.walk(fn) if isinstance(s, ast.If) and 'BSCALE' in ast.unparse(s.test)]
+    if len(sites) != 1:
+        return bad
+    s = sites[0]
+    if ast.unparse(s.test) not in ("'BSCALE' in header", '"BSCALE" in header') or s.orelse or len(s.body) != 1:
+        return bad
+    b = s.body[0]
+    if isinstance(b, ast.AugAssign) and ast.unparse(b.target) == 'data':
+        op = {ast.Mult: '*', ast.Add: '+', ast.Sub: '-', ast.FloorDiv: '//'}.get(type(b.op))
+        if op is None:
+            return bad
+        rhs = f"data {op} ({ast.unparse(b.value)})"
+    elif isinstance(b, ast.Assign) and len(b.targets) == 1 and ast.unparse(b.targets[0]) == 'data':
+        rhs = ast.unparse(b.value)
+    else:
+        return bad
+    for k in ("header['BSCALE']", 'header["BSCALE"]'):
+        rhs = rhs.replace(k, 'bs')
+    return head + f"    out = data\n    if has == 1:\n        out = {rhs}\n    return out\n"
+
+
 def _slices():
     repo = os.environ.get('AEGEAN_REPO', '/repo')
     try:
         tree = ast.parse(open(os.path.join(repo, _F)).read())
         fn = [n for n in ast.walk(tree) if isinstance(n, ast.FunctionDef) and n.name == 'load_image_band'][0]
         text = "\n\n".join([_guard_slice(fn), _hdr_slice(fn, 'c'), _hdr_slice(fn, 'p'), _section_slice(fn),
-                            _compressed_slice(fn)])
+                            _compressed_slice(fn), _ext_slice(fn), _bscale_slice(fn)])
     except Exception as exc:
         text = f"# slicing failed: {exc!r}\n"
     d = os.path.join(tempfile.gettempdir(), 'verif-C20-slices')
@@ -349,4 +421,14 @@ TARGETS = [
              fallback={'cmpRlo': _fbN('cmpRlo', _CP, 'cmpRloHand'), 'cmpRhi': _fbN('cmpRhi', _CP, 'cmpRhiHand'),
                        'cmpClo': _fbN('cmpClo', _CP, 'cmpCloHand'), 'cmpChi': _fbN('cmpChi', _CP, 'cmpChiHand')},
              all_params=_CP),
+        dict(file=_S, func='ext', mode='int', params={'hdu_index': 'N'},
+             outputs=[('eh', 'extHeader'), ('ed', 'extData'), ('ec', 'extCmp')],
+             fallback={'extHeader': 'def extHeader (hdu_index : Nat) : Nat := Aegean.Model.C20.extHeaderHand hdu_index',
+                       'extData': 'def extData (hdu_index : Nat) : Nat := Aegean.Model.C20.extDataHand hdu_index',
+                       'extCmp': 'def extCmp (hdu_index : Nat) : Nat := Aegean.Model.C20.extCmpHand hdu_index'},
+             all_params=['hdu_index']),
+        dict(file=_S, func='bscale', mode='int', params={'has': 'N', 'data': 'N', 'bs': 'N'},
+             outputs=[('out', 'scaled')],
+             fallback={'scaled': 'def scaled (has data bs : Nat) : Nat := Aegean.Model.C20.scaledHand has data bs'},
+             all_params=['has', 'data', 'bs']),
     ]
